@@ -21,6 +21,11 @@
 #include "icinga/apiactions.hpp"
 #include "icinga/externalcommandprocessor.hpp"
 #include "remote/apilistener.hpp"
+#include "remote/endpoint.hpp"
+#include "remote/zone.hpp"
+#include "remote/jsonrpcconnection.hpp"
+#include "remote/messageorigin.hpp"
+#include "icinga/clusterevents.hpp"
 
 using namespace icinga;
 
@@ -184,12 +189,42 @@ VOP(parent)
 	Out("parent " + FullLine());
 }
 
+// C06: the cluster entry point.  The message is delivered as JsonRpcConnection::MessageHandler would deliver it for an
+// authenticated endpoint of the LOCAL zone (HA peer): FromClient has an endpoint, FromZone stays null.
+static MessageOrigin::Ptr ClusterOrigin()
+{
+	static JsonRpcConnection::Ptr conn;
+	if (!conn) {
+		LoadConfig("object Endpoint \"vfpeer\" { }\nobject Zone \"vfzone\" { endpoints = [ \"vfpeer\" ] }\n");
+		conn = new JsonRpcConnection("vfpeer", true, nullptr, RoleServer);
+		if (!conn->GetEndpoint()) throw std::runtime_error("cluster origin: endpoint not found");
+	}
+	MessageOrigin::Ptr origin = new MessageOrigin();
+	origin->FromClient = conn;
+	return origin;
+}
+
+static Dictionary::Ptr ClusterParams()
+{
+	Dictionary::Ptr params = new Dictionary({ { "host", f_Host->GetName() }, { "author", "vd" }, { "comment", "c" } });
+	if (f_IsSvc) params->Set("service", "s");
+	params->Set("change_time", Utility::GetTime());
+	return params;
+}
+
 VOP(ack)
 {
 	std::string via = a.str("via", "api");
 	bool sticky = a.num("sticky"), notify = a.num("notify"), pers = a.num("pers"), eg = a.num("eg");
 	long long expiry = std::stoll(a.str("expiry", "0"));
-	if (via == "api") {
+	if (via == "cluster") {
+		Dictionary::Ptr params = ClusterParams();
+		params->Set("acktype", sticky ? 2 : 1);
+		params->Set("notify", notify);
+		params->Set("persistent", pers);
+		params->Set("expiry", (double)expiry);
+		ClusterEvents::AcknowledgementSetAPIHandler(ClusterOrigin(), params);
+	} else if (via == "api") {
 		Dictionary::Ptr params = new Dictionary({ { "author", "vd" }, { "comment", "c" } });
 		params->Set("sticky", sticky);
 		params->Set("notify", notify);
@@ -217,7 +252,9 @@ VOP(ack)
 
 VOP(unack)
 {
-	if (a.str("via", "api") == "api") {
+	if (a.str("via", "api") == "cluster") {
+		ClusterEvents::AcknowledgementClearedAPIHandler(ClusterOrigin(), ClusterParams());
+	} else if (a.str("via", "api") == "api") {
 		Dictionary::Ptr params = new Dictionary({ { "author", "vd" } });
 		ApiActions::RemoveAcknowledgement(f_Ck, params);
 	} else {
